@@ -262,6 +262,38 @@ def op_mode(mode):
     sx.reach("mode-set")
 
 
+def op_mode_unknown(name, transport):
+    """a mode name the library has no code for (the two 'OPEN LOOP' names of the docstring, a typo): refused, nothing
+    reaches the drive, whatever the drive advertises"""
+    node = _node()
+    drive = D.Drive(D.SOD)
+    sx.env().tick = 0.05
+    rx = []
+    if transport == "pdo":
+        net = sx.mod("canopen.network").Network()
+        net.send_message = lambda cid, data, remote=False: rx.append((cid, sx.mkbytes(sx.items(data))))
+        net.add_node(node)
+        _attach_sdo(node, drive)
+        r = node.rpdo[1]
+        r.clear()
+        r.add_variable(0x6040)
+        r.add_variable(0x6060)
+        r.cob_id = 0x203
+        r.enabled = True
+        node.setup_pdos(upload=False)
+    else:
+        _attach_sdo(node, drive)
+    drive.supported = sx.fresh_int("supported", 0, 0xFFFFFFFF)
+    key = "C19/op_mode_unknown/%s/%s" % (name, transport)
+    try:
+        node.op_mode = name
+        sx.fail("a mode name without a CiA 402 code was accepted", key + "/accepted")
+    except Exception as e:
+        sx.observe("exc", C.exc_name(e))
+    sx.prove(len(drive.mode_writes) == 0 and len(rx) == 0, "something was sent for a refused mode", key + "/sent")
+    sx.reach("mode-unknown")
+
+
 def op_mode_retry(mode):
     """the first query of the supported modes (0x6502) goes unanswered; once the drive answers again, an advertised
     mode is accepted and written (nothing wrong may be remembered from the failed attempt)"""
@@ -408,6 +440,9 @@ def jobs(tier):
     for mode in D.MODES:
         out.append(dict(func="op_mode", params=dict(mode=mode)))
         out.append(dict(func="op_mode_retry", params=dict(mode=mode)))
+    for name in ("OPEN LOOP SCALAR MODE", "OPEN LOOP VECTOR MODE", "PROFILE POSITION", ""):
+        for tr in ("sdo", "pdo"):
+            out.append(dict(func="op_mode_unknown", params=dict(name=name, transport=tr)))
     names = list(D.MODES)
     pairs = [(names[i], names[(i + 1) % len(names)]) for i in range(len(names))] if tier == "quick" else \
         [(a, b) for a in names for b in names if a != b]
@@ -441,7 +476,7 @@ META = dict(
     stubs=["struct", "time.monotonic", "threading.Condition", "sdo.upload/download replaced on the instance (framing is "
            "C01's business)", "Network.send_message replaced on the instance"],
     required_reach=["decode-unknown"] + ["decode-" + s for s in D.ALL_STATES] +
-                   ["refused", "commanded", "bad-target-refused", "mode-refused", "mode-set", "sequence", "mode-pdo", "mode-pdo-set", "mode-pdo-refused", "mode-retry", "mode-retry-refused"],
+                   ["refused", "commanded", "bad-target-refused", "mode-refused", "mode-set", "sequence", "mode-pdo", "mode-pdo-set", "mode-pdo-refused", "mode-retry", "mode-retry-refused", "mode-unknown"],
     limits=dict(quick=dict(max_decisions=20000), thorough=dict(max_decisions=20000, crosscheck_every=2, crosscheck_max=30)),
     validate_every=dict(quick=2, thorough=1),
 )
